@@ -31,10 +31,11 @@ class Scope:
 
 
 class Gen:
-    def __init__(self, rng, ill_typed=0.08, max_depth=3, use_records=True, use_funcs=True, use_loops=True,
+    def __init__(self, rng, ill_typed=0.015, risky=0.15, max_depth=3, use_records=True, use_funcs=True, use_loops=True,
                  use_builtins=True, nil_prob=0.03, undeclared=0.02, prefix=''):
         self.r = rng
         self.ill = ill_typed
+        self.risky = risky            # probability of picking positions / indexes that may be out of range
         self.max_depth = max_depth
         self.use_records, self.use_funcs, self.use_loops, self.use_builtins = use_records, use_funcs, use_loops, use_builtins
         self.nil_prob = nil_prob
@@ -52,7 +53,7 @@ class Gen:
         return self.prefix + self.r.choice(NAMES) + bn(self.counter)
 
     def pick_var(self, scope, ty):
-        vs = [n for n, t in scope.lookup_all().items() if t == ty or ty == 'any']
+        vs = [n for n, t in scope.lookup_all().items() if t == ty or (ty == 'any' and t not in ('nil', 'func'))]
         if vs and self.r.random() > 0.1: return self.r.choice(vs)
         return None
 
@@ -84,7 +85,7 @@ class Gen:
             f = self.pick_func('num')
             if f: return self.call(scope, f, depth)
             lv = self.pick_var(scope, 'list')
-            if lv: return [lv, '[', '০', ']']
+            if lv and r.random() < self.risky: return [lv, '[', '০', ']']
             return [r.choice(NUMS)]
         if ty == 'bool':
             if leaf: return [r.choice(['সত্য', 'মিথ্যা'])]
@@ -192,10 +193,11 @@ class Gen:
             if v and self.use_builtins:
                 c = r.random()
                 if c < 0.4: self.emit(['_লিস্ট-পুশ', '(', v, ','] + self.expr(scope, 'num', 2) + [')', ';'])
-                elif c < 0.55: self.emit(['_লিস্ট-পুশ', '(', v, ',', r.choice(['০', '১', '৫', '-১']), ','] + self.expr(scope, 'num', 2) + [')', ';'])
+                elif c < 0.55: self.emit(['_লিস্ট-পুশ', '(', v, ',', (r.choice(['১', '৫', '-১']) if r.random() < self.risky else '০'), ','] + self.expr(scope, 'num', 2) + [')', ';'])
                 elif c < 0.7: self.emit(['_লিস্ট-পপ', '(', v, ')', ';'])
-                elif c < 0.8: self.emit(['_লিস্ট-পপ', '(', v, ',', r.choice(['০', '১', '৫']), ')', ';'])
-                else: self.emit([v, '[', r.choice(['০', '১', '২']), ']', '='] + self.expr(scope, 'num', 2) + [';'])
+                elif c < 0.8 and r.random() < self.risky: self.emit(['_লিস্ট-পপ', '(', v, ',', r.choice(['০', '১', '৫']), ')', ';'])
+                elif r.random() < self.risky: self.emit([v, '[', r.choice(['০', '১', '২']), ']', '='] + self.expr(scope, 'num', 2) + [';'])
+                else: self.emit(['_লিস্ট-পুশ', '(', v, ','] + self.expr(scope, 'str', 2) + [')', ';'])
             else:
                 self.emit(['দেখাও'] + self.expr(scope, 'str') + [';'])
         elif k < 0.75 and depth < self.max_depth:
